@@ -1024,8 +1024,12 @@ func (rn *runner) runSeq(sq *seqSpec) seqResult {
 		if rpSite != "" {
 			res.suspicious = true
 			res.reqPanic = rpSite
+			conseq := "rows of earlier, acknowledged requests that had been extracted from the buffer for the synchronous flush are dropped"
+			if !modelSite(rpSite) {
+				conseq = "the panic is inside library code reached from the handler (outside the model: found by search)"
+			}
 			c.Fail("panic:request-goroutine:"+rpSite,
-				fmt.Sprintf("%s handler panicked on the request goroutine (%s); fiber's recover middleware answered %d; rows already extracted from the buffer for the synchronous flush are dropped", r.Ep, rpMsg, code),
+				fmt.Sprintf("%s handler panicked on the request goroutine (%s); fiber's recover middleware answered %d; %s", r.Ep, rpMsg, code, conseq),
 				rn.minimalReplay(sq, i, "rp:"+rpSite))
 		}
 		if fpSite != "" {
